@@ -25,7 +25,7 @@ def set_lit(xs):
 def is_event_source(f):
     """vec_300 (random bases), vec_302/303 and vec_5xx (histories) feed `ys record`, not `ys run`."""
     n = int(re.match(r"vec_(\d+)", f).group(1))
-    return n in (300, 302, 303) or 500 <= n < 600
+    return n in (300, 302, 303, 304) or 500 <= n < 600
 
 
 def judge_probe(p, r):
@@ -151,12 +151,13 @@ def run(ctx):
     # binding self-test (code -> model): one corrupted event must be rejected by the trace spec
     evs = read_ndjson(events)
     nhist = sum(1 for e in evs if e["mut"].startswith("hist:"))
+    nxhist = sum(1 for e in evs if e["mut"].startswith("xhist:"))
     good = next((e for e in evs if e["parseOk"] and e["ok"] and e["mut"] == "none"), None)
     if good is None:
         raise Infra("no accepted unmutated event to corrupt for the trace self-test")
     with open(events, "a") as fh:
         fh.write(json.dumps(dict(good, id=SELFTEST_ID, parseOk=False, ok=False, err="self-test: corrupted event"), separators=(",", ":")) + "\n")
-    fails, nev, evverd = validate_events(ctx, events, nproc=3 if quick else 8)
+    fails, nev, evverd = validate_events(ctx, events, nproc=4 if quick else 8)
     st = [f for f in fails if f["id"] == SELFTEST_ID]
     if len(st) != 1 or st[0]["what"] != "valid-rejected-by-parse":
         raise Infra("trace self-test failed: the corrupted event was not rejected by YangStmtTrace")
@@ -175,7 +176,7 @@ def run(ctx):
         evaluations=stats["probes"] + nev, distinct_nontrivial=len(distinct),
         rule="probes = every (parent, child, count >= 1) triple over 68 parents x 67 keywords (count 0 once per parent and for every required child), every section order / revision list / argument candidate of the spec; "
              "distinct = (family, parent-or-kind, child-or-keyword, verdict) classes; events = mutated TLC-sampled trees judged by YangStmtTrace",
-        samples=samples, probes=stats, events=nev, history_events=nhist, event_verdicts=evverd, exhaustive=True,
+        samples=samples, probes=stats, events=nev, history_events=nhist, extension_function_history_events=nxhist, event_verdicts=evverd, exhaustive=True,
         explanation="TLC checked table well-formedness and that every probe's only violation is the intended one (YangStmtMC), generated the probes with their "
                     "prescribed verdicts (YangStmtGen); every probe was run through parse.Parse and compile.CompileParseTrees; mutated random trees were run and judged by TLC (YangStmtTrace)")
     return ctx.finish(cov, [
